@@ -162,6 +162,7 @@ def dispatch (op : String) (args : List Sexp) : String :=
   | "tetris.compile" => TT.opCompile args
   | "tf.apply" => opTfApply args
   | "tf.general" => "unsupported"
+  | "tf.gchain" => "unsupported"
   | "c20.abs2gds" => "unsupported"
   | "c20.abs2lef" => "unsupported"
   | "c20.lefrt" => "unsupported"
